@@ -122,9 +122,20 @@ class SendCheckModel(Monitor):
                 self.deadline = t + self.ms
             return
         lim = [f for f in rec.faults if f[2] == CHECK_LIMIT]
+        if rec.inb_kind == "FIN" and rec.exc is not None and not rec.exc.is_lib and rec.pre.step == "WAITING_FOR_FINISHED":
+            w.violate("C13.sender_finished_pdu_lost_to_timer", f"{rec.exc!r} expired={t >= self.deadline}", rec.exc.msg)
+            self.done = True
+            return
         if rec.inb_kind == "FIN" and rec.exc is None:
             self.done = True
             w.probe("C13.sender_got_finished")
+            if t >= self.deadline:
+                w.probe("C13.sender_got_finished_at_expired_timer")
+            # the awaited Finished PDU ends the wait, also when it is handed over in the very call that finds the check
+            # timer expired: no fault is due for a PDU that has arrived
+            if lim or eofs or rec.post.state != "IDLE":
+                w.violate("C13.sender_finished_pdu_lost_to_timer", f"faults={[(f[0], f[2]) for f in rec.faults]} eofs={[e.info[1] for e in eofs]} "
+                          f"post={rec.post.step} expired={t >= self.deadline}", "")
             return
         if rec.op != "sm" or rec.pre.step != "WAITING_FOR_FINISHED":
             return
@@ -224,12 +235,24 @@ def run_one(t):
         w.monitors.append(mon)
         # slow, tape-paced sending in a third of the runs: the file data phase may then last longer than a check
         # interval (timers must count from the EOF, not from the start of the transaction)
-        if t.choose(3, "pacing") == 2:
+        pv = t.choose(5, "pacing")
+        if pv == 2:
             w.pacing = "random"
+        elif pv == 3:
+            # timer / PDU arrival races: main loops with a period around the check interval (late File Data / Finished PDUs
+            # are then handed over in the very call that also finds the check timer expired) ...
+            from props.pops import ticked_pacing
+
+            ticked_pacing(w, t, intervals=(C / 1000,))
+        elif pv == 4:
+            # ... or a caller that runs the state machines only when a PDU arrives
+            w.pacing = "event" if sender_case else "lazy"
+            w.lazy_ms = 2 * C + 100
         w.max_events = 20000
         w.max_t = 10_000_000
         _start(ctx, None)
-        slack = 300 if w.pacing == "regular" else 4 * cfg.poll_ms + 300  # an expiry is observed at the next poll
+        # an expiry is observed at the next poll
+        slack = {"regular": 300, "random": 4 * cfg.poll_ms + 300, "ticked": 2 * w.tick_ms + 300, "lazy": w.lazy_ms + 300, "event": 300}[w.pacing]
         bound = w.clock.t + (L + 3) * (C + slack) + 3000
 
         def until(w):
